@@ -41,6 +41,12 @@ class Oracle:
         w = self.w
         I = g.side.interp
         payload = tok[1] if len(tok) > 1 else None
+        if not g.started and not g.done and tok[0] != "send":
+            # throw()/close() on a generator that never started runs none of its code: unobservable, not logged
+            g.done = True
+            if tok[0] == "throw":
+                raise PyRaise(payload)
+            return ("return", None)
         g.log.append((g.name, g.k, tok[0], payload))
         if g.done:
             if tok[0] == "send":
@@ -64,6 +70,9 @@ class Oracle:
                     opts.append("raise_same")
                 if self.allow_reyield and g.last_msg is not None:
                     opts.append("reyield")
+            flt = getattr(self, "opt_filter", None)
+            if flt is not None:
+                opts = flt(g, tok, opts)       # preconditions on the abstract generators (stated in the contract)
             kind = w.choose(opts, f"{g.name}#{key[1]} on {tok[0]}")
             val = None
             if kind == "yield":
@@ -93,7 +102,9 @@ class Oracle:
             raise PyRaise(payload)
         if tok[0] == "close":
             return ("return", None)
-        raise EngineError("raise_same on send")
+        # the other side threw/closed at this interaction while this side sends: the call logs already differ here
+        # (reported by the trace obligation); finish the generator so that the comparison can be made
+        return ("return", None)
 
 
 class Side:
@@ -111,6 +122,7 @@ class Canon:
         self.w = w
         self.stack = set()
         self.exclude = set()
+        self.filters = {}
 
     def name(self, obj, prefix):
         k = id(obj)
@@ -141,7 +153,7 @@ class Canon:
                 return self.name(v, v.spec["token"])
             return ("opaque", v.name)
         if isinstance(v, AbsGen):
-            return ("absgen", v.name, v.started, v.done, self.c(v.last_msg) if v.last_msg is not None else None)
+            return ("absgen", getattr(v, "canon_name", v.name), v.started, v.done, self.c(v.last_msg) if v.last_msg is not None else None)
         if isinstance(v, GenObj):
             if id(v) in self.stack:
                 return ("gen-cycle", v.name)
@@ -183,7 +195,11 @@ class Canon:
         for k in sorted(fr.vars):
             if k in exclude or k in getattr(fr, "canon_exclude", ()) or (qn, k) in self.exclude:
                 continue
-            items.append((k, self.c(fr.vars[k])))
+            val = fr.vars[k]
+            flt = self.filters.get((qn, k))
+            if flt is not None:
+                val = flt(self, val)
+            items.append((k, self.c(val)))
         ctx = tuple(self.ctx(x) for x in getattr(fr, "ctx", []))
         return ("frame", fr.closure.qualname if fr.closure else None, loc, tuple(items), ctx)
 
@@ -268,6 +284,13 @@ class Bisim:
         return self.oracle.new_gen(name, self.impl), self.oracle.new_gen(name, self.ref)
 
     def info(self, why):
+        d = self._info(why)
+        extra = getattr(self, "extra", None)
+        if extra is not None:
+            d.update(extra())
+        return d
+
+    def _info(self, why):
         return {"replay": self.replay, "why": why, "script": list(self.script), "cfg": self.cfg,
                 "oracle": {f"{k[0]}#{k[1]}": v[0] for k, v in self.oracle.table.items()}}
 
@@ -319,6 +342,16 @@ class Bisim:
             # joint yield: cut point
             cn = Canon(w)
             cn.exclude = set(self.canon_exclude)      # (function qualname, local name) pairs abstracted away by a cut invariant
+            for side in (self.impl, self.ref):
+                fr = getattr(side.gen, "frame", None)
+                qn_ = fr.closure.qualname if fr is not None and fr.closure else None
+                for (q_, var) in getattr(self, "dead_stacks", ()):
+                    if q_ == qn_ and var in fr.vars:
+                        # cut invariant "all current entries of this stack are dead": checked dynamically (a pop that
+                        # reaches below the recorded floor is an engine error), and the stack is left out of the key
+                        w.ghost.setdefault("$floors", {})[id(fr.vars[var])] = len(fr.vars[var])
+                        cn.exclude.add((q_, var))
+            cn.filters = dict(getattr(self, "canon_filters", {}))
             key = (cn.c(oi[1]), self._side_key(cn, self.impl), self._side_key(cn, self.ref))
             if not w.ch.replaying:
                 if key in seen:
